@@ -449,8 +449,10 @@ func HarnessC02ConstExpr() {
 	src := vfParamStr("src")
 	bad := vfInt("bad")
 	env := &vfCEEnv{A: vfInt("A"), P: vfBool("P")}
+	sawBad := false
 	env.Pure = func(x int) int {
 		if x == bad {
+			sawBad = true
 			panic("pure function rejects its argument")
 		}
 		return vfUFInt("Pure", x)
@@ -468,19 +470,8 @@ func HarnessC02ConstExpr() {
 	}
 	if err1 != nil {
 		vfReach("c02.constexpr.failure-moved-to-compile-time")
-		// then the call itself fails: some literal argument is the rejected value
-		found := false
-		for _, v := range lits.vals {
-			if v == bad {
-				found = true
-			}
-		}
-		if !lits.symbolic {
-			tree, _ := parser.Parse(src)
-			f := &vfIntFinder{want: bad}
-			ast.Walk(&tree.Node, f)
-			found = f.found
-		}
+		// then the call itself failed: the function was applied to the value it rejects
+		found := sawBad
 		vfAssert(found, "c02.constexpr.only-the-failure-of-the-call-moves-to-compile-time")
 		return
 	}
